@@ -125,7 +125,32 @@ def _entry_at(fa, value, at, fields):
     return {f: A.norm(v) for f, v in ef.items()}
 
 
-def _facts(fa, lits, subject):
+def _on_trail(fa, atom, at, trail):
+    """`atom` (tested at node `at`) with every local replaced by the value the path gave it last before the
+    test — the path-sensitive counterpart of FA.expand for locals that have several definitions."""
+    import copy
+    upto = len(trail) - 1 - list(reversed(trail)).index(at) if at in trail else len(trail)
+    last = {}
+    for i in trail[:upto]:
+        nd = fa.cfg.node(i)
+        if nd.kind == "stmt" and isinstance(nd.ast, (ast.Assign, ast.AnnAssign)):
+            for (t, v) in PM._flat_targets(nd.ast):
+                if isinstance(t, ast.Name):
+                    last[t.id] = (v, i)
+        elif nd.kind in ("for", "with") or (nd.kind == "stmt" and isinstance(nd.ast, ast.AugAssign)):
+            for nm in _names(nd.ast.target if nd.kind != "with" else ast.Tuple(elts=[i_.optional_vars for i_ in nd.ast.items if i_.optional_vars is not None], ctx=ast.Store())):
+                last[nm] = (None, i)
+
+    class T(ast.NodeTransformer):
+        def visit_Name(self, n):
+            if isinstance(n.ctx, ast.Load) and n.id in last and last[n.id][0] is not None:
+                return fa.expand(last[n.id][0], last[n.id][1])
+            return n
+
+    return T().visit(copy.deepcopy(atom))
+
+
+def _facts(fa, lits, subject, trail=()):
     """(is `subject` the stored form?, attributes it is known to have) as stated by the live literals of a path;
     a literal about a local is read through the local's value (`idx = getattr(p, 'a', None)` ... `idx is None`)."""
     inst, has = None, set()
@@ -136,6 +161,8 @@ def _facts(fa, lits, subject):
         if d is None:
             try:
                 d = PM.duck_atom(PM._strip_casts(fa.expand(l.atom, l.at)), subject)
+                if d is None and trail:
+                    d = PM.duck_atom(PM._strip_casts(_on_trail(fa, l.atom, l.at, trail)), subject)
             except Exception:  # noqa
                 d = None
         if d and d[0] == "isinstance" and "PicklePartition" in d[1]:
@@ -170,7 +197,7 @@ def _parent_reads(fa, MP, use=None):
         paths = PM.walk(fa, ids)
         if not paths:
             continue
-        facts = [_facts(fa, lits, MP) for (_t, lits, _tr) in paths]
+        facts = [_facts(fa, lits, MP, _tr) for (_t, lits, _tr) in paths]
         if all(i is True for (i, _h) in facts):
             stored.add(attr)
             continue
@@ -180,7 +207,7 @@ def _parent_reads(fa, MP, use=None):
                 tested = h if tested is None else (tested & h)
     if use is not None:
         for (_t, lits, _tr) in PM.walk(fa, [use]):
-            (i, h) = _facts(fa, lits, MP)
+            (i, h) = _facts(fa, lits, MP, _tr)
             if i is False:
                 tested = h if tested is None else (tested & h)
     return stored, duck, (tested or set())
